@@ -8,6 +8,7 @@
 //   mg|mgr NL n_0 .. n_{NL-1} { A[n*n]  nf idx*  [P[n*nc] R[nc*n] unless last]  4 x (flag [M[n*n]]) }^NL
 //      napp { cycle cgc top crs  dlen d* }^napp        (slots: pre, post, peak, coarse; level 0 = finest)
 //   mgx ...            like mg, plus the result `Y n y*` of the independent recursive reference (refmg.hpp)
+//   mgh ...            double: FEAT on 2^k*d for k = 0,-10..-60,10..60, reference recursion at double and exact
 //   mgd ...            the same at double (results printed as hex floats; conformance stream, no model counterpart)
 //   rate2d NL cycle cgc  the same measurement on 2-D Poisson (5-point stencil)
 //   rate NL cycle cgc  (double precision measurement, thorough tier only; no model counterpart)
@@ -23,6 +24,7 @@
 #include <memory>
 #include <deque>
 #include <cstdio>
+#include <cmath>
 #include <algorithm>
 
 using namespace FEAT;
@@ -112,11 +114,13 @@ template<typename DT_> struct Conv;
 template<> struct Conv<Q>
 {
   static Q parse(const std::string& s) { return Q::parse(s); }
+  static Q from(Q x) { return x; }
   static std::string str(Q x) { return x.str(); }
 };
 template<> struct Conv<double>
 {
   static double parse(const std::string& s) { return Q::parse(s).v().get_d(); }
+  static double from(Q x) { return x.v().get_d(); }
   static std::string str(double x) { char b[64]; snprintf(b, sizeof(b), "%a", x); return b; }
 };
 
@@ -137,69 +141,106 @@ static Solver::MultiGridAdaptCGC cgc(long long k)
   return k == 0 ? Solver::MultiGridAdaptCGC::Fixed : k == 1 ? Solver::MultiGridAdaptCGC::MinEnergy : Solver::MultiGridAdaptCGC::MinDefect;
 }
 
-static refmg::Mat ref_mat(const std::vector<Q>& d, std::size_t rows, std::size_t cols)
-{
-  refmg::Mat m(rows, refmg::Vec(cols));
-  for(std::size_t i = 0; i < rows; ++i) for(std::size_t j = 0; j < cols; ++j) m[i][j] = d[i*cols + j].v();
-  return m;
-}
-static refmg::Mat ref_mat(const std::vector<double>&, std::size_t, std::size_t) { return refmg::Mat(); }
-
-// with_ref: additionally run the independent recursive reference (refmg.hpp) and print its result as `Y n y*`
+// parses the hierarchy part of a case and builds the real FEAT objects (and, on request, the data of the independent
+// recursive reference, exact and at double)
 template<typename DT>
-static void handle_mg(Cur& c, std::ostream& o, bool with_ref = false)
+struct MGSetup
 {
   typedef LogMatrix<DT> Matrix; typedef typename Types<DT>::Vector Vector; typedef typename Types<DT>::Filter Filter;
   typedef LogTransfer<DT> Transfer;
   typedef Solver::MultiGridHierarchy<Matrix, Filter, Transfer> Hier;
   typedef Solver::MultiGrid<Matrix, Filter, Transfer> MG;
   typedef Solver::SolverBase<Vector> SB;
-
-  Index nl = c.idx();
-  std::vector<Index> n(nl);
+  Index nl;
+  std::vector<Index> n;
   std::deque<Matrix> mats; std::deque<Filter> filts; std::deque<Transfer> trans;
-  std::vector<std::array<std::shared_ptr<SB>, 4>> sol(nl);
-  // two passes are not possible on a token stream, so the level sizes are taken from the stream: the transfer of
-  // level l needs n[l+1]; the protocol therefore lists all sizes first.
-  for(Index l = 0; l < nl; ++l) n[l] = c.idx();
-  std::vector<refmg::Level> rlv(nl);
-  for(Index l = 0; l < nl; ++l)
+  std::vector<std::array<std::shared_ptr<SB>, 4>> sol;
+  std::vector<refmg::Level> rlv;                       // exact reference data
+  std::vector<refmg::T<double>::Level> rlvd;           // the same rounded to double
+  std::shared_ptr<Hier> hier;
+
+  static refmg::Mat rmat(const std::vector<Q>& d, std::size_t rows, std::size_t cols)
   {
-    auto am = read_q<DT>(c, n[l]*n[l]);
-    mats.emplace_back(l, make_csr<DT>(n[l], n[l], am));
-    filts.emplace_back(n[l]);
-    auto fi = c.idxlist();
-    for(auto i : fi) filts.back().add(Index(i), DT(0));
-    rlv[l].n = n[l];
-    if(with_ref) { rlv[l].A = ref_mat(am, n[l], n[l]); rlv[l].fidx.insert(fi.begin(), fi.end()); }
-    if(l + 1 < nl)
+    refmg::Mat m(rows, refmg::Vec(cols));
+    for(std::size_t i = 0; i < rows; ++i) for(std::size_t j = 0; j < cols; ++j) m[i][j] = d[i*cols + j].v();
+    return m;
+  }
+  static refmg::T<double>::Mat dmat(const std::vector<Q>& d, std::size_t rows, std::size_t cols)
+  {
+    refmg::T<double>::Mat m(rows, refmg::T<double>::Vec(cols));
+    for(std::size_t i = 0; i < rows; ++i) for(std::size_t j = 0; j < cols; ++j) m[i][j] = d[i*cols + j].v().get_d();
+    return m;
+  }
+  static std::vector<DT> conv(const std::vector<Q>& q)
+  {
+    std::vector<DT> v(q.size());
+    for(std::size_t i = 0; i < q.size(); ++i) v[i] = Conv<DT>::from(q[i]);
+    return v;
+  }
+
+  MGSetup(Cur& c, bool with_ref)
+  {
+    nl = c.idx();
+    n.resize(nl); sol.resize(nl); rlv.resize(nl); rlvd.resize(nl);
+    // the protocol lists all level sizes first (the transfer of level l needs n[l+1])
+    for(Index l = 0; l < nl; ++l) n[l] = c.idx();
+    for(Index l = 0; l < nl; ++l)
     {
-      auto p = read_q<DT>(c, n[l]*n[l+1]);
-      auto r = read_q<DT>(c, n[l+1]*n[l]);
-      trans.emplace_back(l, make_csr<DT>(n[l], n[l+1], p), make_csr<DT>(n[l+1], n[l], r));
-      if(with_ref) { rlv[l].P = ref_mat(p, n[l], n[l+1]); rlv[l].R = ref_mat(r, n[l+1], n[l]); }
-    }
-    static const char* roles[4] = {"a", "b", "k", "c"};
-    for(int s = 0; s < 4; ++s)
-    {
-      rlv[l].has[s] = (c.idx() != 0);
-      if(rlv[l].has[s])
+      auto am = read_q<Q>(c, n[l]*n[l]);
+      mats.emplace_back(l, make_csr<DT>(n[l], n[l], conv(am)));
+      filts.emplace_back(n[l]);
+      auto fi = c.idxlist();
+      for(auto i : fi) filts.back().add(Index(i), DT(0));
+      rlv[l].n = rlvd[l].n = n[l];
+      if(with_ref)
       {
-        auto sm = read_q<DT>(c, n[l]*n[l]);
-        sol[l][s] = std::make_shared<MockSolver<DT>>(roles[s] + std::to_string(l), n[l], sm);
-        if(with_ref) rlv[l].s[s] = ref_mat(sm, n[l], n[l]);
+        rlv[l].A = rmat(am, n[l], n[l]); rlv[l].fidx.insert(fi.begin(), fi.end());
+        rlvd[l].A = dmat(am, n[l], n[l]); rlvd[l].fidx.insert(fi.begin(), fi.end());
+      }
+      if(l + 1 < nl)
+      {
+        auto p = read_q<Q>(c, n[l]*n[l+1]);
+        auto r = read_q<Q>(c, n[l+1]*n[l]);
+        trans.emplace_back(l, make_csr<DT>(n[l], n[l+1], conv(p)), make_csr<DT>(n[l+1], n[l], conv(r)));
+        if(with_ref)
+        {
+          rlv[l].P = rmat(p, n[l], n[l+1]); rlv[l].R = rmat(r, n[l+1], n[l]);
+          rlvd[l].P = dmat(p, n[l], n[l+1]); rlvd[l].R = dmat(r, n[l+1], n[l]);
+        }
+      }
+      static const char* roles[4] = {"a", "b", "k", "c"};
+      for(int s = 0; s < 4; ++s)
+      {
+        rlv[l].has[s] = rlvd[l].has[s] = (c.idx() != 0);
+        if(rlv[l].has[s])
+        {
+          auto sm = read_q<Q>(c, n[l]*n[l]);
+          sol[l][s] = std::make_shared<MockSolver<DT>>(roles[s] + std::to_string(l), n[l], conv(sm));
+          if(with_ref) { rlv[l].s[s] = rmat(sm, n[l], n[l]); rlvd[l].s[s] = dmat(sm, n[l], n[l]); }
+        }
       }
     }
+    hier = std::make_shared<Hier>(nl);
+    for(Index l = 0; l < nl; ++l)
+    {
+      if(l + 1 < nl)
+        hier->push_level(mats[l], filts[l], trans[l], sol[l][0], sol[l][1], sol[l][2], sol[l][3]);
+      else
+        hier->push_level(mats[l], filts[l], sol[l][3]);
+    }
+    hier->init();
   }
-  auto hier = std::make_shared<Hier>(nl);
-  for(Index l = 0; l < nl; ++l)
-  {
-    if(l + 1 < nl)
-      hier->push_level(mats[l], filts[l], trans[l], sol[l][0], sol[l][1], sol[l][2], sol[l][3]);
-    else
-      hier->push_level(mats[l], filts[l], sol[l][3]);
-  }
-  hier->init();
+};
+
+// with_ref: additionally run the independent recursive reference (refmg.hpp) and print its result as `Y n y*`
+template<typename DT>
+static void handle_mg(Cur& c, std::ostream& o, bool with_ref = false)
+{
+  typedef MGSetup<DT> SU;
+  typedef typename SU::Vector Vector; typedef typename SU::MG MG;
+  SU su(c, with_ref);
+  auto& hier = su.hier;
+  auto& rlv = su.rlv;
 
   Index napp = c.idx();
   std::shared_ptr<MG> mg;
@@ -242,6 +283,65 @@ static void handle_mg(Cur& c, std::ostream& o, bool with_ref = false)
   }
   mg->done();
   hier->done();
+}
+
+// ---------------------------------------------------------------------------------------------------------------
+// mgh: the real MultiGrid at double on d and on 2^k d, k = -60..60 (scaling by a power of two commutes exactly with
+// every IEEE operation, so the results must scale bit for bit - also the adaptive step lengths, which are ratios),
+// next to the independent recursive reference at double (with its step lengths) and exactly.
+// output per application:  APP Q n q*  { K k n x*  R n r*  W m w* }^11      (hex doubles)
+// ---------------------------------------------------------------------------------------------------------------
+static void handle_mgh(Cur& c, std::ostream& o)
+{
+  typedef MGSetup<double> SU;
+  typedef SU::Vector Vector; typedef SU::MG MG;
+  SU su(c, true);
+  Index napp = c.idx();
+  std::shared_ptr<MG> mg;
+  static const int scales[11] = {0, -10, -20, -30, -40, -60, 10, 20, 30, 40, 60};
+  for(Index a = 0; a < napp; ++a)
+  {
+    long long cy = c.i64(), cg = c.i64(), top = c.i64(), crs = c.i64();
+    Index dl = c.idx();
+    auto d = read_q<Q>(c, dl);
+    if(a == 0) { mg = std::make_shared<MG>(su.hier, cyc(cy), int(top), int(crs)); mg->init(); }
+    else { mg->set_cycle(cyc(cy)); mg->set_levels(int(top), int(crs)); }
+    mg->set_adapt_cgc(cgc(cg));
+    const int kind = int(cy) == 0 ? 0 : int(cy) == 1 ? 1 : 2;
+    if(a > 0) o << " ";
+    o << "APP";
+    // exact rationals grow with every adaptive step length: the exact reference is computed only for short cycles
+    const Index ell = mg->get_crs_level() - mg->get_top_level();
+    const Index ell_max = (kind == 0) ? 5 : (kind == 1) ? 3 : 2;
+    if(cg != 0 && ell > ell_max)
+      o << " Q 0";
+    else
+    {
+      refmg::Ref ref(su.rlv, int(cg), std::size_t(mg->get_crs_level()));
+      refmg::Vec rb(dl);
+      for(Index i = 0; i < dl; ++i) rb[i] = d[i].v();
+      refmg::Vec y = ref.cycle(kind, std::size_t(mg->get_top_level()), rb);
+      o << " Q " << y.size();
+      for(auto& q : y) o << " " << Conv<double>::str(q.get_d());
+    }
+    for(int k : scales)
+    {
+      Vector vd(dl), vc(dl);
+      refmg::T<double>::Vec rb(dl);
+      for(Index i = 0; i < dl; ++i) { double x = std::ldexp(d[i].v().get_d(), k); vd(i, x); vc(i, 12345.0); rb[i] = x; }
+      mg->apply(vc, vd);
+      o << " K " << k << " " << dl;
+      for(Index i = 0; i < dl; ++i) o << " " << Conv<double>::str(vc(i));
+      refmg::T<double>::Ref ref(su.rlvd, int(cg), std::size_t(mg->get_crs_level()));
+      auto y = ref.cycle(kind, std::size_t(mg->get_top_level()), rb);
+      o << " R " << y.size();
+      for(double q : y) o << " " << Conv<double>::str(q);
+      o << " W " << ref.omegas.size();
+      for(double w : ref.omegas) o << " " << Conv<double>::str(w);
+    }
+  }
+  mg->done();
+  su.hier->done();
 }
 
 // ---------------------------------------------------------------------------------------------------------------
@@ -480,6 +580,7 @@ static void handle(const verif::Tokens& t, std::ostream& o)
   if(op == "mg" || op == "mgr") handle_mg<Q>(c, o);
   else if(op == "mgx" || op == "mgxr") handle_mg<Q>(c, o, true);
   else if(op == "mgd") handle_mg<double>(c, o);
+  else if(op == "mgh") handle_mgh(c, o);
   else if(op == "rate") handle_rate(c, o);
   else if(op == "rate2d") handle_rate2d(c, o);
   else o << "BAD-OP";
